@@ -25,6 +25,10 @@ fn main() {
     if args.is_empty() {
         usage();
     }
+    if args[0] == "--isolated" {
+        // a single execution in a process of its own (the parent judges how this process ends)
+        std::process::exit(props::isolated(&args[1..]));
+    }
     let id = args[0].to_uppercase();
     let mut tier = match std::env::var("VERIF_TIER").ok().as_deref() {
         Some("thorough") => Tier::Thorough,
